@@ -23,7 +23,14 @@ class SchemaModel(Model):
         A("MessageOptions", {"map_entry": "Bool"})
         A("MethodPb", {"name": "Str", "input_type": "Str", "output_type": "Str", "client_streaming": "Bool",
                        "server_streaming": "Bool", "options": "MethodOptions"})
-        A("MethodOptions", {"deprecated": "Bool"})
+        A("MethodOptions", {"deprecated": "Bool", "Extensions": "ExtMap"})
+        A("ExtMap", {})
+        A("HttpRulePb", {"get": "Str", "put": "Str", "post": "Str", "delete": "Str", "patch": "Str", "custom": "CustomHttpPb", "body": "Str",
+                         "additional_bindings": "Seq[HttpRulePb]"})
+        A("CustomHttpPb", {"kind": "Str", "path": "Str"})
+        self.extensions = {"google.api.http": "HttpRulePb", "google.api.method_signature": "Seq[Str]"}
+        self.add_axiom(seq_len(z3.Const("seq.empty", Ref)) == 0)
+        self.add_axiom(z3.Const("seq.empty", Ref) != NONE)
         A("ServicePb", {"name": "Str"})
         A("EnumPb", {"name": "Str"})
         # ---- metadata
@@ -103,8 +110,14 @@ class SchemaModel(Model):
         v = super().global_name(ex, name, st)
         if v is not None:
             return v
-        if name in ("utils", "keyword", "metadata", "descriptor_pb2", "field_behavior_pb2", "re", "dataclasses", "collections", "wrappers"):
+        if name in ("utils", "keyword", "metadata", "descriptor_pb2", "field_behavior_pb2", "dataclasses", "collections", "wrappers"):
             return pyv(("module", name))
+        natives = {"annotations_pb2": "google.api.annotations_pb2", "client_pb2": "google.api.client_pb2", "routing_pb2": "google.api.routing_pb2",
+                   "resource_pb2": "google.api.resource_pb2", "field_info_pb2": "google.api.field_info_pb2", "re": "re"}
+        if name in natives:
+            import importlib
+            from .model import Native
+            return pyv(Native(importlib.import_module(natives[name])))
         if name == "yaml":
             import yaml
             from .model import Native
@@ -112,6 +125,20 @@ class SchemaModel(Model):
         if name in ("MethodSettingsError", "ClientLibrarySettingsError", "TypeError", "ValueError", "KeyError"):
             return pyv(("excclass", name))
         return None
+
+    def subscript(self, ex, base, idx, st, node):
+        from .model import Native
+        if isinstance(base.ty, ObjT) and base.ty.name == "ExtMap" and idx.ty is PY and isinstance(idx.py, Native):
+            full = getattr(idx.py.obj, "full_name", None)
+            if full in self.extensions:
+                ty = parse_type(self.extensions[full])
+                # base.term is `<Class>.Extensions(options)`: key the accessor on the options object itself
+                opts = base.term.arg(0) if z3.is_app(base.term) and base.term.num_args() == 1 else base.term
+                v = V(fn("ext." + full, Ref, ty.sort())(opts), ty)
+                self.type_facts(ex, v, st)
+                return v
+            raise Unsupported(f"extension {full} not in the schema table")
+        return super().subscript(ex, base, idx, st, node)
 
     def obj_getattr(self, ex, base, attr, st, node):
         if base.ty.name == "PrimitiveType" and attr == "python_type":
